@@ -439,8 +439,8 @@ def v_wait_payment(C, rep, pfx):
                 rep.ob(rid, not bad, fn, "an error never turns into a result", where=bad[0][1] if bad else loc(b.term(errt)["sp"]), how="no Ok(..) under the Err arm", detail="" if not bad else "a waitsendpay error is mapped to Ok at %s" % bad[0][1])
                 # code None / General
                 exits = [(k, s) for k, ee, s, w in result_alternatives(b, X) if s in r]
-                rep.ob(rid, all(k in ("Err", "residual") for k, s in exits) and len(exits) >= 3, fn, "all non-tolerated error exits are Err", where=loc(b.term(errt)["sp"]), how="%d Err exits" % len(exits),
-                       detail="" if all(k in ("Err", "residual") for k, s in exits) and len(exits) >= 3 else "error exits under the Err arm: %s" % [k for k, s in exits])
+                rep.ob(rid, all(k in ("Err", "residual") for k, s in exits) and len(exits) >= 1, fn, "all non-tolerated error exits are Err", where=loc(b.term(errt)["sp"]), how="%d Err exits" % len(exits),
+                       detail="" if all(k in ("Err", "residual") for k, s in exits) and len(exits) >= 1 else "error exits under the Err arm: %s" % [k for k, s in exits])
         # ---- V1
         rid = pfx + "-V1"
         rep.rule(rid, "a returned preimage is the payment_preimage of a COMPLETE-listed part or of a successful waitsendpay")
